@@ -760,6 +760,21 @@ class Emitter:
             raise Abort('dependent cast')
         raise Abort('cast kind ' + str(ck))
 
+    @staticmethod
+    def int_literal(n):
+        """a non-zero integer literal behind value-preserving wrappers (casts, parentheses, substituted template arguments)"""
+        while n.get('kind') in ('ImplicitCastExpr', 'ParenExpr', 'ConstantExpr', 'SubstNonTypeTemplateParmExpr', 'CStyleCastExpr',
+                                'CXXStaticCastExpr', 'CXXFunctionalCastExpr') and n.get('inner'):
+            if n.get('castKind') not in (None, 'NoOp', 'IntegralCast', 'LValueToRValue'):
+                return False
+            n = n['inner'][-1]
+        if n.get('kind') != 'IntegerLiteral':
+            return False
+        try:
+            return int(n.get('value', '0')) != 0
+        except ValueError:
+            return False
+
     def binop(self, n):
         op = n['opcode']
         a, b = n['inner']
@@ -784,6 +799,9 @@ class Emitter:
             # as an uninterpreted, functionally consistent operation
             self.cur['externs'].add('AVM_MUL')
             return 'AVM_MUL_%s(%s, %s)' % (DIVT[T], self.E(a), self.E(b))
+        if op in ('/', '%') and T in DIVT and self.int_literal(b):
+            # division by a compile-time constant (lane-index arithmetic such as N / 2, (a + b) / 2): always the C operator
+            return '(%s %s %s)' % (self.E(a), op, self.E(b))
         if op in ('/', '%') and T in DIVT:
             # integer division goes through a macro so that a TU can treat the divide instruction as an uninterpreted
             # (functionally consistent) operation; by default the macro is the C operator itself
